@@ -213,6 +213,22 @@ func init() {
 				}
 				cases = append(cases, Case{"prog": randomProg(rng, 6, 0.2, 7), "mode": mode, "key": key, "variants": v, "seed": rng.Int63()})
 			}
+			// symbols that open with punctuation or a sign (text conv does not look symbols up): with and without the `_`
+			odd := []string{"-5", "(b5)", ".5", "*", "!x", ":3", "°7", "ø", "+", "'", "\"q", "-", "(9)", "^7", "~", "|x", "@"}
+			for i, sy := range odd {
+				p := randomProg(rng, 3, 0.0, 7)
+				for j := range p {
+					if !p[j].Rest {
+						p[j].Sym = odd[(i+j)%len(odd)]
+					}
+				}
+				p = append(p, PItem{N: 5, Sym: sy, Vals: one()})
+				mode, key := "degree", ""
+				if i%2 == 0 {
+					mode, key = "syllable", supportedKeys[rng.Intn(len(supportedKeys))]
+				}
+				cases = append(cases, Case{"prog": p, "mode": mode, "key": key, "variants": 4, "seed": rng.Int63()})
+			}
 			// every duration numeral zero-padded, with numerals of 8 and more (010 is ten, 08 is eight)
 			pool := []Frac{{10, 1}, {8, 1}, {9, 1}, {1, 8}, {1, 10}, {12, 8}, {100, 1}, {18, 11}, {64, 9}}
 			for i := 0; i < n/8+4; i++ {
